@@ -145,6 +145,10 @@ Qed.
 Lemma res53_in_unit_interval_refuted : exists v, (v < 2 ^ 64)%N /\ B2R (res53 v) = 1.
 Proof. exists 18446744073709551615%N. split; [reflexivity | apply res53_top_is_one]. Qed.
 
+(* exactly the 1024 largest raw values give 1.0: probability 2^-54 per draw for an ideal generator *)
+Lemma res53_equals_one_iff v : (v < 2 ^ 64)%N -> (B2R (res53 v) = 1 <-> (2 ^ 64 - 2 ^ 10 <= v)%N).
+Proof. apply res53_one_iff. Qed.
+
 Lemma res53_monotone v1 v2 : (v1 <= v2)%N -> (v2 < 2 ^ 64)%N -> B2R (res53 v1) <= B2R (res53 v2).
 Proof. apply res53_mono. Qed.
 
